@@ -72,10 +72,14 @@ void w_vss_set_path(uint8_t* pdu, uint64_t kind, uint64_t static_id, uint8_t* pa
 
 /* out[0..1] path_length BE (or 0xA5A5 when untouched), out[2] = 1 when the path pointer was changed,
  * out[4..7] static id BE */
-void w_vss_get_path(uint8_t* pdu, uint64_t kind, uint8_t* dest, uint8_t* out)
+void w_vss_get_path2(uint8_t* pdu, uint64_t kind, uint8_t* dest, uint8_t* out, uint64_t prefill);
+void w_vss_get_path(uint8_t* pdu, uint64_t kind, uint8_t* dest, uint8_t* out) { w_vss_get_path2(pdu, kind, dest, out, 0xA5); }
+/* prefill: the byte the caller's VssPath_t is filled with beforehand */
+void w_vss_get_path2(uint8_t* pdu, uint64_t kind, uint8_t* dest, uint8_t* out, uint64_t prefill)
 {
     struct { uint64_t c1; VssPath_t vp; uint64_t c2; } s;
     memset(&s, 0xA5, sizeof s);
+    memset(&s.vp, (int)prefill, sizeof s.vp);
     if (kind == 0) s.vp.vss_interop_path.path = (char*)dest;
     Avtp_Vss_GetVssPath((Avtp_Vss_t*)pdu, &s.vp);
     memset(out, 0, 8);
@@ -168,9 +172,9 @@ void w_vss_set_data(uint8_t* pdu, uint64_t shape, uint8_t* canon, uint64_t nbyte
         unsigned code = shape == 11 ? 0 : (unsigned)(shape & 0x7f);
         if (code == 11) code = 0;            /* string array: packed bytes */
         unsigned es = elem_size(code);
-        to_typed(code, canon, typed, nbytes / es);
+        if (typed) to_typed(code, canon, typed, nbytes / es);
         arr.data_length = (uint16_t)nbytes;
-        arr.data = (uint64_t*)(void*)typed;
+        arr.data = (uint64_t*)(void*)typed;       /* NULL is passed through for empty values: a caller without data */
         val.data_uint64_array = &arr;
     }
     Avtp_Vss_SetVssData((Avtp_Vss_t*)pdu, &val);
@@ -256,7 +260,10 @@ uint64_t w_sa_count(uint8_t* packed, uint64_t data_length)
 /* unpack `req` strings. dest: flat destination area (NULL = lengths only); string i is given the address
  * dest + be32(offs_be + 4*i). out_lens_be receives the req resulting data_length values (0xA5A5 = untouched);
  * returns 1 if any data pointer was changed */
-uint64_t w_sa_unpack(uint8_t* packed, uint64_t data_length, uint64_t req, uint8_t* dest, uint8_t* offs_be, uint8_t* out_lens_be)
+uint64_t w_sa_unpack2(uint8_t* packed, uint64_t data_length, uint64_t req, uint8_t* dest, uint8_t* offs_be, uint8_t* out_lens_be, uint64_t prefill);
+uint64_t w_sa_unpack(uint8_t* packed, uint64_t data_length, uint64_t req, uint8_t* dest, uint8_t* offs_be, uint8_t* out_lens_be) { return w_sa_unpack2(packed, data_length, req, dest, offs_be, out_lens_be, 0xA5A5); }
+/* prefill: what the destination string objects' data_length holds beforehand */
+uint64_t w_sa_unpack2(uint8_t* packed, uint64_t data_length, uint64_t req, uint8_t* dest, uint8_t* offs_be, uint8_t* out_lens_be, uint64_t prefill)
 {
     VssDataString_t strs[SA_MAX];
     VssDataString_t* ptrs[SA_MAX];
@@ -265,7 +272,7 @@ uint64_t w_sa_unpack(uint8_t* packed, uint64_t data_length, uint64_t req, uint8_
     sa.data_length = (uint16_t)data_length;
     sa.data = packed;
     for (uint64_t i = 0; i < req && i < SA_MAX; i++) {
-        strs[i].data_length = 0xA5A5;
+        strs[i].data_length = (uint16_t)prefill;
         strs[i].data = dest ? (char*)dest + be_load(offs_be + 4 * i, 4) : (char*)0;
         ptrs[i] = &strs[i];
     }
